@@ -36,25 +36,25 @@ def run(chk):
     from props.c15_poolkey import poolkey_kernel
     import os
     if os.environ.get('VERIF_ONLY') == 'poolkey':  # development aid: one kernel alone (never a registered command)
-        poolkey_kernel(chk, it)
+        chk.guard(poolkey_kernel, chk, it)
         return
     BM.CONFIG['symbolic_ops'] = True
     it.arith_feasibility = True
     try:
-        frac_kernel(chk, it)
+        chk.guard(frac_kernel, chk, it)
         for n in (1, 2):
-            swap_settlement(chk, it, n)
+            chk.guard(swap_settlement, chk, it, n)
         for n in (1, 2):
-            withdraw_settlement(chk, it, n)
+            chk.guard(withdraw_settlement, chk, it, n)
         # deposits: one request per pool through the whole settlement function (wiring + per-request formula); batches of
         # several deposits only differ in the totals, which are the same saturating folds as in the swap / withdrawal kernels
-        deposit_settlement(chk, it, 1)
+        chk.guard(deposit_settlement, chk, it, 1)
     finally:
         BM.CONFIG['symbolic_ops'] = False
         it.arith_feasibility = False
-    selectors(chk, it)
-    pool_list_kernel(chk, it)
-    poolkey_kernel(chk, it)
+    chk.guard(selectors, chk, it)
+    chk.guard(pool_list_kernel, chk, it)
+    chk.guard(poolkey_kernel, chk, it)
 
 
 # ---------------------------------------------------------------------------------------------------------------
